@@ -1,9 +1,59 @@
-import Chiritori.Model.Api
+import Chiritori.Spec.Holds
+/-
+  `spec` requests of the driver: evaluate a property's predicate on an observed (implementation) output.
+  extra fields: property id, then property-specific fields.
+-/
 namespace Chiritori.Spec
+open Chiritori
 
-/-- `spec` requests: evaluate a property's decidable predicate on an observed output.
-    extra fields: property id, then property-specific hex fields. -/
-def dispatch (_extra : List String) (_src _ds _de : List Char) (_cfg : Cfg) (_args : List Int) : String :=
-  "ok\tno-spec"
+def hexVal (c : Char) : Nat :=
+  if '0' ≤ c ∧ c ≤ '9' then c.toNat - 48
+  else if 'a' ≤ c ∧ c ≤ 'f' then c.toNat - 87 else 0
+
+def unhexBytes : List Char → ByteArray → ByteArray
+  | a :: b :: rest, acc => unhexBytes rest (acc.push (UInt8.ofNat (hexVal a * 16 + hexVal b)))
+  | _, acc => acc
+
+def unhex (s : String) : List Char :=
+  match String.fromUTF8? (unhexBytes s.toList ByteArray.empty) with
+  | some str => str.toList
+  | none => []
+
+def parseToken (s : String) : Option Token :=
+  match s.splitOn ":" with
+  | [k, a, b, c, d, v] =>
+    some ⟨if k == "E" then .element else .text, unhex v, a.toNat!, c.toNat!, b.toNat!, d.toNat!⟩
+  | _ => none
+
+def parseTokens (s : String) : List Token :=
+  if s.isEmpty then [] else (s.splitOn " ").filterMap parseToken
+
+mutual
+def treeString : List Part → String
+  | [] => ""
+  | p :: ps => partString p ++ treeString ps
+def partString : Part → String
+  | .text t => s!"T{t.bstart} "
+  | .element _ st en ch => s!"E{st.bstart},{en.bstart}( " ++ treeString ch ++ ") "
+end
+
+def b2s (b : Bool) : String := if b then "true" else "false"
+
+def dispatch (extra : List String) (src ds de : List Char) (cfg : Cfg) (_args : List Int) : String :=
+  match extra with
+  | ["C02C03", out] =>
+    let n := (extentsOfSource src ds de cfg).length
+    s!"ok\t{b2s (c02c03Holds src ds de cfg (unhex out))} {n}"
+  | ["C04", out] =>
+    if nothingReady src ds de cfg then s!"ok\t{b2s (c04Holds src ds de cfg (unhex out))}" else "ok\tvacuous"
+  | ["C07", toks] => s!"ok\t{b2s (c07Holds src ds de (parseTokens toks))}"
+  | ["C08", toks] => s!"ok\t{b2s (c08Holds src ds de (parseTokens toks))}"
+  | ["C10", tree] =>
+    let exp := treeString (stackParse ds de (tokenize src ds de))
+    s!"ok\t{b2s (exp == tree)}"
+  | ["C14", out] =>
+    let n := (extentsOfSource src ds de cfg).length
+    s!"ok\t{b2s (c14Holds src ds de cfg (unhex out))} {n}"
+  | _ => "ok\tno-spec"
 
 end Chiritori.Spec
